@@ -11,7 +11,7 @@ import (
 func init() {
 	register(&propInfo{
 		ID:          "C11",
-		Explanation: "Path and value-origin analysis of the error path between handler and caller: (R11.1) the server's error constructor returns a non-nil pointer on every path; the dispatcher sets the reply's error exactly on the branch where the handler's error is non-nil, and sets the result only where the reply's error is nil; (R11.2) on the client, every failed conversion of a registered error type returns the generic error value itself (never nil, never a dereferenced or zero value), and conversion is attempted only for a non-nil reply error; (R11.3) the error registry's Register updates both directions with the same (type, code) pair, the server looks the code up under the dynamic type of the very error the handler returned, and message/code of the generic error come from that error; (R11.4) on transport or local failures the generated client function returns the zero value of the declared result type and a non-nil client error wrapping the cause.",
+		Explanation: "Path and value-origin analysis of the error path between handler and caller: (R11.1) the server's error constructor returns a non-nil pointer on every path; the dispatcher sets the reply's error exactly on the branch where the handler's error is non-nil, and sets the result only where the reply's error is nil; (R11.2) on the client, every failed conversion of a registered error type returns the generic error value itself (never nil, never a dereferenced or zero value), and conversion is attempted only for a non-nil reply error; (R11.3) the error registry's Register updates both directions with the same (type, code) pair, the server looks the code up under the dynamic type of the very error the handler returned, and message/code of the generic error come from that error; (R11.4) on transport or local failures the generated client function returns the zero value of the declared result type and a non-nil client error wrapping the cause. (R11.6) every use of a message writer in the library package is json.NewEncoder, or a Write of a constant, of a json.Marshal result or of a writer wrapper's own parameter: no hand-formatted reply.",
 		NotDecided:  "Type/content round trip of registered error types and message bytes (values through encoding/json and user codecs).",
 		Assumptions: []string{"Errors.Register, NewErrors, ErrClient and JSONRPCError are resolved by their exported names (public API)"},
 		Run:         runC11,
